@@ -16,6 +16,12 @@ Sections
               tolist/toiter, todict and topandas.  Tables are rebuilt (program re-run) for every use, because reading a
               table makes the library materialise lazy ragged views inside it and would hide what user code sees
   datatypes   the field names / kinds of every class in bionumpy.datatypes against a table written from the docs
+  input forms every further accepted input form of a column kind (FORM_KINDS: a rectangular 2-D ndarray for a
+              list-of-numbers column, a tuple of tuples, a pandas Series) x the construct contracts, and x the programs:
+              the base table is handed over in that form, and concatenation with tables handed over in that form (of the
+              same and of other row widths; the ordinary operands have ragged columns), replace and add_fields with a
+              column in that form join the operation alphabet.  A failure that the same rows and program also show with
+              the canonical input form keeps its signature, one that needs the form ends in ':input-form=<form>'
 """
 import copy
 import itertools
@@ -1377,6 +1383,15 @@ def run(tier="quick", seed=0):
         "construct": "every schema x n=0..3 x input forms python lists / keyword arguments / library containers / alternative "
                      "containers (tuple, numpy U/S arrays, base-encoded text, list of arrays) / cls.empty(); 12 ill-typed inputs x n in {1,3}; "
                      "one column shorter / longer by 1 in constructor, replace, add_fields",
+        "input forms (2-D ndarray of width w for List[int] / List[float] / List[bool] / quality / cigar-length columns; tuple of "
+        "tuples for the List kinds; pandas Series for numeric, text, identifier, encoded and List kinds)":
+            "construct: every schema with such a column x n=0..3 (x w=0..2); programs with the base table and form operands "
+            "(concatenate same / other width w+1, w-1, replace, add_fields in that form; ordinary operands are ragged): " +
+            ("ndarray2d: List[int] n in {1,3} w=2 rep, n=2 w=1 rep x mini, List[float]/List[bool] n=3 w=2 rep, Bed12 GfaPath "
+             "nested-in-nested n=3 mini; tuple: List[int] List[bool] n=3 rep; Series: int str List[int] strand n=3 rep" if quick else
+             "ndarray2d: List[int] n=0..3 w in {1,2} rep x mini, List[float]/List[bool] n in {1,3} w=2 rep x mini and n in {0,2} w=1 rep, "
+             "Bed12 GfaPath wide nested-in-nested n in {1,3} rep, GfaPath n=3 w=1 rep x mini; tuple: List kinds n=1..3 rep, "
+             "List[int] n=3 rep x mini; Series: every kind with the form and the wide table n in {1,3} rep, int str List[int] n=3 rep x mini"),
         "tables with a context (set_context, as attached by the file readers)": "K_str and Interval, n in {0,1,3}: rep (depth 1)",
         "observation": "after every operation: column containers (class invariant len(column)=len(table)), operands re-read; per node "
                        "t[i] for every i in [-n,n), iteration, tolist/toiter, todict, topandas - each on a table nobody has read before"}
